@@ -303,6 +303,8 @@ def install(rec):
     def post_fc(snap, result, self, flatconfig, dtype=None):
         H = snap["want"]
         n = self.nsites
+        if n > 8:
+            return
         x = int("".join(str(int(b)) for b in snap["fc"]), 2) if n else 0
         col = np.zeros(2 ** n, dtype=complex)
         bjs, cs = result
@@ -812,9 +814,54 @@ def wl_spin_chains(rng, rec, tier):
     return desc
 
 
+def wl_many_sites(rng, rec, tier):
+    """configuration couplings beyond 64 sites (the variational Monte Carlo use):
+    too large for any matrix, but for one-site terms the coupled configurations and
+    coefficients are known in closed form"""
+    from quimb.operator import SparseOperatorBuilder
+    n = int(rng.integers(60, 90))
+    from quimb.operator import HilbertSpace
+    H = SparseOperatorBuilder(hilbert_space=HilbertSpace(n))
+    xs = sorted(int(i) for i in rng.choice(n, size=int(rng.integers(1, 6)), replace=False))
+    zs = sorted(int(i) for i in rng.choice(n, size=int(rng.integers(0, 4)), replace=False))
+    cx = {i: float(np.round(rng.normal(), 3)) or 1.0 for i in xs}
+    cz = {i: float(np.round(rng.normal(), 3)) or 1.0 for i in zs}
+    for i, c in cx.items():
+        H += c, ("x", i)
+    for i, c in cz.items():
+        H += c, ("z", i)
+    fc = rng.integers(0, 2, size=n).astype(np.uint8)
+    out = gen.attempt2(H.flatconfig_coupling, fc)
+    if out is gen.REJECTED:
+        return {"n": n, "rejected": True}
+    hs = H.hilbert_space
+    reg = {s_: hs.site_to_reg(s_) for s_ in hs.sites}
+    want = {}
+    diag = sum(c * (1.0 if fc[reg[i]] == 0 else -1.0) for i, c in cz.items())
+    if zs and abs(diag) > 0:
+        want[bytes(fc)] = diag
+    for i, c in cx.items():
+        g = fc.copy()
+        g[reg[i]] ^= 1
+        want[bytes(g)] = want.get(bytes(g), 0.0) + c
+    got = {}
+    dup = False
+    for bj, c in zip(*out):
+        key = bytes(np.asarray(bj, dtype=np.uint8))
+        dup |= key in got
+        got[key] = got.get(key, 0.0) + complex(c)
+    got = {k_: v for k_, v in got.items() if abs(v) > 1e-200}
+    ok = (not dup) and set(got) == set(want) and all(abs(got[k_] - want[k_]) <= 1e-9 for k_ in want)
+    rec.check("builder", "coupling_many_sites", bool(ok), mech="builder:coupling:many_sites",
+              detail={"n": n, "nx": len(xs), "nz": len(zs), "got_rows": len(got), "want_rows": len(want), "duplicates": bool(dup)},
+              sig=("many", n > 64, len(xs)))
+    return {"n": n, "xs": xs, "zs": zs}
+
+
 WORKLOADS = [
     ("builder", 6, wl_builder),
     ("sector", 3, wl_sector),
     ("hilbert", 4, wl_hilbert),
     ("spin_chains", 3, wl_spin_chains),
+    ("many_sites", 1, wl_many_sites),
 ]
